@@ -123,7 +123,10 @@ def replay_payload(prop, payload):
     if payload.get("kind") == "broken-obligation":
         return True, "broken obligation (no concrete input recorded): re-run the check"
     case = payload.get("case", payload)
-    failure = oracle_check(prop, case)
+    if prop == "C03":       # the failure may be "does not return": replay under the watchdog
+        failure = _confirm_timeout(dict(case, check="c03"))
+    else:
+        failure = oracle_check(prop, case)
     if failure is None:
         return False, "holds"
     return True, json.dumps(failure)[:500]
@@ -193,6 +196,16 @@ def oracle_cases(prop, tier, rng, inputs, fixed_only=True):
         yield from semprops.payloads(prop, fixed)
 
 
+def _confirm_timeout(payload, seconds=150):
+    """a C03 payload hit the 40 s watchdog: run it once more alone with a generous limit"""
+    from . import semprops
+    (pl, failure, err), = semprops.run_parallel([payload], procs=1, task_timeout=seconds)
+    if err == "timeout":
+        return {"kind": "does-not-return", "seconds": seconds,
+                "note": f"ngo.optimize did not return within {seconds} s (killed by the watchdog)"}
+    return failure
+
+
 def run_oracle(prop, tier, rng, inputs, known):
     t0 = time.time()
     fails = []
@@ -205,6 +218,8 @@ def run_oracle(prop, tier, rng, inputs, known):
             stats["evaluations"] += 1
             if err:
                 stats["oracle_errors"] = stats.get("oracle_errors", 0) + 1
+                if prop == "C03" and err == "timeout":
+                    failure = _confirm_timeout(payload)     # "optimize always returns": re-run alone, 150 s
             if failure is None:
                 continue
             if any(matches_finding(prop, payload, failure, f) for f in allknown):
@@ -305,6 +320,8 @@ def search(prop, tier, rng, inputs, fam_results, known):
             if not batch:
                 break
             for payload, failure, err in semprops.run_parallel(batch):
+                if prop == "C03" and err == "timeout":
+                    failure = _confirm_timeout(payload)
                 if failure is None:
                     continue
                 if any(matches_finding(prop, payload, failure, f) for f in allknown):
